@@ -62,6 +62,11 @@ theorem rename_eq_some (r : Req) (n v : Name) :
 
 /-! ## association lists -/
 
+theorem nodup_reverse {α : Type} (l : List α) (h : l.Nodup) : l.reverse.Nodup := by
+  unfold List.Nodup at *
+  rw [List.pairwise_reverse]
+  exact h.imp (fun hab => fun e => hab e.symm)
+
 theorem lookup_some_mem {β : Type} (l : List (Name × β)) (k : Name) (b : β) :
     l.lookup k = some b → (k, b) ∈ l := by
   induction l with
@@ -119,7 +124,7 @@ theorem lookupLast_of_mem_nodup (ids : List (Name × Option Name)) (n : Name) (a
   intro h
   unfold lookupLast
   apply lookup_of_mem_nodup
-  · rw [List.map_reverse]; exact List.nodup_reverse.mpr hn
+  · rw [List.map_reverse]; exact nodup_reverse _ hn
   · simpa using h
 
 theorem lookupLast_none (ids : List (Name × Option Name)) (n : Name) :
@@ -185,5 +190,103 @@ theorem mapOpt_none {α β : Type} (f : α → Option β) : ∀ (l : List α),
     · subst e; simp [hfx]
     · rw [ih ⟨x, e, hfx⟩]
       cases f a <;> simp
+
+/-! ## flattening agrees with composing on the canonical fragment -/
+
+theorem rename_prefix (t : Nat) (ids : List (Name × Option Name)) (p q n : Name) :
+    (⟨t, ids, p ++ q⟩ : Req).rename n = ((⟨t, ids, q⟩ : Req).rename n).map (p ++ ·) := by
+  unfold Req.rename
+  simp only
+  split
+  · simp [List.append_assoc]
+  · cases lookupLast ids n <;> simp [List.append_assoc]
+
+theorem canonical_onlyIn_path {provs : Nat → List Name} {m : Nat} {ids : List (Name × Option Name)}
+    (h : (Spec.onlyIn (.path m) ids).canonical provs = true) :
+    ids ≠ [] ∧ (ids.map (·.1)).Nodup ∧ (∀ ia ∈ ids, ia.1 ∈ provs m) ∧ (provs m).Nodup := by
+  simp only [Spec.canonical, Bool.and_eq_true, Bool.not_eq_true', List.isEmpty_eq_false_iff,
+    decide_eq_true_eq, List.all_eq_true, List.contains_iff_mem] at h
+  obtain ⟨⟨⟨h1, h2⟩, h3⟩, h4⟩ := h
+  exact ⟨h1, h2, h3, h4⟩
+
+theorem flat_eq_compositional {β : Type} (ex : Nat → List (Name × β)) (s : Spec) :
+    s.canonical (fun m => (ex m).map (·.1)) = true → ∀ (v : Name) (b : β),
+    ((∃ n, (v, n, b) ∈ s.flatten.importsM (ex s.target)) ↔
+      ∃ l, s.importsS ex = some l ∧ (v, b) ∈ l) := by
+  induction s with
+  | path m =>
+    intro _ v b
+    simp only [flatten_eq, Spec.target, Spec.ids, Spec.prefixes, mem_importsM, Spec.importsS]
+    simp [Req.rename]
+  | prefixIn p s ih =>
+    intro hc v b
+    have ih := ih (by simpa [Spec.canonical] using hc)
+    simp only [flatten_eq, Spec.target, Spec.ids, Spec.prefixes, mem_importsM, Spec.importsS] at ih ⊢
+    rw [show (⟨s.target, s.ids, p ++ s.prefixes⟩ : Req) = ⟨s.target, s.ids, p ++ s.prefixes⟩ from rfl]
+    constructor
+    · rintro ⟨n, hmem, hr⟩
+      rw [rename_prefix] at hr
+      cases hr' : (⟨s.target, s.ids, s.prefixes⟩ : Req).rename n with
+      | none => simp [hr'] at hr
+      | some v' =>
+        simp [hr'] at hr
+        obtain ⟨l, hl, hv⟩ := (ih v' b).mp ⟨n, hmem, hr'⟩
+        refine ⟨l.map fun e => (p ++ e.1, e.2), by simp [hl], ?_⟩
+        exact List.mem_map.mpr ⟨(v', b), hv, by simp [hr]⟩
+    · rintro ⟨l, hl, hv⟩
+      cases hs : s.importsS ex with
+      | none => simp [hs] at hl
+      | some l0 =>
+        simp [hs] at hl
+        subst hl
+        obtain ⟨⟨v', b'⟩, hm, he⟩ := List.mem_map.mp hv
+        simp at he
+        obtain ⟨he1, he2⟩ := he
+        subst he2
+        obtain ⟨n, hmem, hr⟩ := (ih v' b').mpr ⟨l0, hs, hm⟩
+        refine ⟨n, hmem, ?_⟩
+        rw [rename_prefix, hr]
+        simp [he1]
+  | onlyIn s ids _ =>
+    intro hc v b
+    cases s with
+    | onlyIn _ _ => simp [Spec.canonical] at hc
+    | prefixIn _ _ => simp [Spec.canonical] at hc
+    | path m =>
+      obtain ⟨hne, hnd, hall, hpn⟩ := canonical_onlyIn_path hc
+      simp only [flatten_eq, Spec.target, Spec.ids, Spec.prefixes, mem_importsM, Spec.importsS,
+        List.nil_append]
+      have hsome : ∀ ia ∈ ids, (((ex m).lookup ia.1).map fun b => (ia.2.getD ia.1, b)).isSome = true := by
+        intro ia hia
+        have := lookup_isSome_of_mem_keys (ex m) ia.1 (hall ia hia)
+        cases h : (ex m).lookup ia.1 <;> simp [h] at this ⊢
+      obtain ⟨l', hl'⟩ := mapOpt_isSome _ ids hsome
+      have hmem := mapOpt_some _ ids l' hl'
+      constructor
+      · rintro ⟨n, hn, hr⟩
+        refine ⟨l', hl', ?_⟩
+        rw [rename_eq_some] at hr
+        rcases hr with ⟨he, _⟩ | ⟨_, a, ha, hv⟩
+        · exact absurd he hne
+        · have hia := lookupLast_some_mem ids n a ha
+          rw [hmem]
+          refine ⟨(n, a), hia, ?_⟩
+          rw [lookup_of_mem_nodup (ex m) n b hpn hn]
+          simp [hv]
+      · rintro ⟨l, hl, hv⟩
+        rw [hl'] at hl
+        simp at hl
+        subst hl
+        obtain ⟨⟨n, a⟩, hia, hf⟩ := (hmem (v, b)).mp hv
+        cases hlk : (ex m).lookup n with
+        | none => simp [hlk] at hf
+        | some b' =>
+          simp [hlk] at hf
+          obtain ⟨hf1, hf2⟩ := hf
+          subst hf2
+          refine ⟨n, lookup_some_mem _ _ _ hlk, ?_⟩
+          rw [rename_eq_some]
+          refine Or.inr ⟨hne, a, lookupLast_of_mem_nodup ids n a hnd hia, ?_⟩
+          simp [hf1]
 
 end SteelVerif.C14
